@@ -224,6 +224,12 @@ func runC04(w *World) {
 		name := fmt.Sprintf("t%03d", i)
 		n := w.addNode(name, "10.0.1.1", 9000+i)
 		n.dir = n.freshDir()
+		// every fourth server is configured read-only: the repair of its log is the same
+		readOnly := (i/c04Chunks+int(w.seed))%4 == 3
+		if readOnly {
+			n.config["read_only"] = true
+			w.stat("c04.cuts_on_a_read_only_server", 1)
+		}
 		os.WriteFile(filepath.Join(n.dir, "appendonly.aof"), padded[:c], 0600)
 		os.WriteFile(filepath.Join(n.dir, "config"), []byte(mustJSON(n.config)), 0600)
 		inst := n.start()
@@ -251,6 +257,14 @@ func runC04(w *World) {
 		}
 		// it must keep appending: one more acknowledged write, kill, start again
 		ob := newObserver(w, n)
+		if readOnly {
+			if v, ok := ob.do("READONLY", "no"); !ok || v.String() != "+OK" {
+				if !w.failed() {
+					w.violate("C04/append", "%s: READONLY no is answered %s", what, v.String())
+				}
+				break
+			}
+		}
 		extra := []string{"SET", "k9", "extra", "POINT", "1.5", fmt.Sprintf("%d.25", 2+i%80)}
 		v, ok := ob.do(extra...)
 		if !ok || v.String() != "+OK" {
